@@ -11,13 +11,13 @@ from __future__ import annotations
 
 import numpy as np
 
-from .. import gens, pc
+from .. import forms, gens, pc
 from ..common import Skip, brief
 
 ID = "C14"
 CASES = {"quick": 3200, "thorough": 36000}
 FLOOR = {"quick": 1600, "thorough": 20000}
-FLOOR_COUNTERS = {"quick": {"more_than_4096_rows": 15, "caller_buffers_overwritten_after_fit": 300, "fits_through_fit_transform": 300, "configured_not_by_constructor": 300, "non_default_containers": 300, "fits_judged": 3500, "nested_pairs": 1200, "new_data_calls": 3000, "y1d_cases": 300, "default_n_components_fits": 100, "estimators_with_a_past": 500, "arpack_fits": 200}, "thorough": {"more_than_4096_rows": 200, "caller_buffers_overwritten_after_fit": 4000, "fits_through_fit_transform": 4000, "configured_not_by_constructor": 4000, "non_default_containers": 4000, "fits_judged": 45000, "nested_pairs": 15000, "new_data_calls": 40000, "y1d_cases": 4000, "default_n_components_fits": 1200, "estimators_with_a_past": 6000, "arpack_fits": 2500}}
+FLOOR_COUNTERS = {"quick": {"uses_after_a_refused_refit": 200, "tolerance_given_as_a_shared_0d_array": 250, "more_than_4096_rows": 15, "caller_buffers_overwritten_after_fit": 300, "fits_through_fit_transform": 300, "configured_not_by_constructor": 300, "non_default_containers": 300, "fits_judged": 3500, "nested_pairs": 1200, "new_data_calls": 3000, "y1d_cases": 300, "default_n_components_fits": 100, "estimators_with_a_past": 500, "arpack_fits": 200}, "thorough": {"uses_after_a_refused_refit": 2500, "tolerance_given_as_a_shared_0d_array": 3000, "more_than_4096_rows": 200, "caller_buffers_overwritten_after_fit": 4000, "fits_through_fit_transform": 4000, "configured_not_by_constructor": 4000, "non_default_containers": 4000, "fits_judged": 45000, "nested_pairs": 15000, "new_data_calls": 40000, "y1d_cases": 4000, "default_n_components_fits": 1200, "estimators_with_a_past": 6000, "arpack_fits": 2500}}
 RULE = (
     "case = centred X, Y (1-D and 2-D), mixing in (0,1], space in {feature, sample}, regressor in the admissible set, "
     "k in [1, rank]; the fit for k and, when k+1 <= rank, for k+1 (full solver) are judged: projector algebra on training "
@@ -49,6 +49,8 @@ def gen(rng, tier, index):
         "k": k,
         "space": gens.pick(rng, ("feature", "sample", "feature", "sample", "auto")),
         "defaults": bool(rng.random() < 0.15),  # n_components=None, svd_solver="auto"
+        "tol_array": bool(rng.random() < 0.2),
+        "failed_refit": bool(rng.random() < 0.35),
         "past": bool(rng.random() < 0.3),  # estimator object and input buffers re-used after an earlier fit
         "solver": gens.pick(rng, ("full", "full", "full", "arpack", "randomized")),
         "pseed": int(rng.integers(1 << 30)),
@@ -86,8 +88,9 @@ def run(case, j):
     sT = float(np.sqrt(w[0]))
     Yfit, _ = pc.fit_args(reg, X, Y)  # targets as the estimator saw them
     ests = {}
-    robj = pc.make_regressor(reg)  # one regressor object shared by every fit of the case
+    robj = pc.make_regressor(reg, abort=True)  # one regressor object shared by every fit of the case
     solver = case.get("solver", "full")
+    tolobj = np.array(1e-12) if case.get("tol_array") else None
     with pc.Capture() as cap:
         for kk in ([k, k + 1] if two else [k]):
             past = np.random.default_rng(case["pseed"] + kk) if case.get("past") else None
@@ -98,10 +101,15 @@ def run(case, j):
             elif solver == "randomized" and kk + 10 >= min(n, m + np.ndim(Y) + 3):
                 skw = {"svd_solver": "randomized", "random_state": 3, "iterated_power": 30}
                 j.note("randomized_fits")
+            if tolobj is not None:
+                skw = dict(skw, tol=tolobj)  # ONE array object holds the tolerance of every fit of the case
             if case.get("defaults"):
-                ests[kk] = pc.fit_pcovr(j, "defaults", X, Y, reg, regressor_obj=robj, past=past, mixing=a, space=space)
+                ests[kk] = pc.fit_pcovr(j, "defaults", X, Y, reg, regressor_obj=robj, past=past, mixing=a, space=space, **({"tol": tolobj} if tolobj is not None else {}))
             else:
                 ests[kk] = pc.fit_pcovr(j, f"k={kk}", X, Y, reg, regressor_obj=robj, past=past, mixing=a, n_components=kk, space=space, **skw)
+    if tolobj is not None:
+        j.ok("the array that holds the tolerance is what the caller made it (1e-12)", float(tolobj) == 1e-12, float(tolobj))
+        j.note("tolerance_given_as_a_shared_0d_array")
     for kk, est in ests.items():
         j.note("fits_judged")
         T = np.asarray(est.transform(X))
@@ -134,6 +142,26 @@ def run(case, j):
             j.note("y1d_cases")
         else:
             j.ok("2-D y: prediction shape", np.shape(est.predict(X)) == np.shape(Y), (np.shape(est.predict(X)), np.shape(Y)))
+    # ---- a refit that is refused late (precomputed targets with weights for another number of targets) must not leave
+    #      the object with projectors of two different fits
+    if case.get("failed_refit"):
+        for kk, est in ests.items():
+            if getattr(est, "space_", None) != "sample":
+                continue
+            Yh2 = np.asarray(Yh, dtype=float).reshape(n, -1)
+            saved = est.regressor
+            est.regressor = "precomputed"
+            est.mixing = 0.9 if a != 0.9 else 0.6
+            got = forms.rejected(j, "refit with weights for another number of targets", est.fit, X * 1.5, Yh2, W=np.ones((m, Yh2.shape[1] + 2)))
+            est.regressor, est.mixing = saved, a
+            if got is None:
+                continue
+            T = np.asarray(est.transform(X))
+            sT_ = max(float(np.abs(T).max()), 1e-300)
+            j.close("after a refused refit: transform(inverse_transform(T)) == T still", np.asarray(est.transform(est.inverse_transform(T))), T, tol * sT_ * 10)
+            pa, pb = np.asarray(est.predict(X)), np.asarray(est.predict(T=T))
+            j.close("after a refused refit: predict(X) == predict(T=transform(X)) still", pa, pb.reshape(pa.shape), tol * max(float(np.abs(pa).max()), 1e-300) * 10)
+            j.note("uses_after_a_refused_refit")
     if two:
         e1, e2 = ests[k], ests[k + 1]
         T1, T2 = e1.transform(X), e2.transform(X)
